@@ -94,6 +94,17 @@ func runC02(cfg Config, r *Result) {
 			}
 		}
 	}
+	// names of built-in globals and functions declared as variables / parameters / loop variables in nested
+	// scopes, followed by the built-ins that look them up: must be rejected, or run without going wrong
+	for _, src := range c02BuiltinNames(cfg) {
+		d := semCase(model, r, src, SemOpts{StopAt: -1, YieldBudget: 100000}, true, "builtin-names:")
+		for _, p := range d.Impl.Phases {
+			if c02Bad(p.Class) {
+				r.Violate(Violation{Kind: "property", Key: "accepted-program-goes-wrong:" + p.Class + ":" + shortKey(firstLine(d.Impl.GoPanic)),
+					Detail: "a program that declares the name of a built-in in a nested scope is accepted and goes wrong: " + p.Class + " " + d.Impl.GoPanic, Input: map[string]any{"program": src}, Impl: p})
+			}
+		}
+	}
 	// the certificate checker Static.wt on every parser-accepted tree (corpus, generated programs, witnesses)
 	runC02WT(cfg, r)
 }
@@ -137,6 +148,29 @@ func c02ReturnPaths(cfg Config) string {
 		fmt.Fprintf(&b, "r%d := (f %s)\nprint r%d (typeof r%d)\n", i, v, i, i)
 	}
 	return b.String()
+}
+
+func c02BuiltinNames(cfg Config) []string {
+	var out []string
+	names := []string{"err", "errmsg", "pi", "print", "len", "str2num"}
+	vals := []string{`"text"`, "0", "true", "[1]", "{a:1}"}
+	uses := []string{"n := str2num \"zz\"\n%sprint n err errmsg\n", "b := str2bool \"maybe\"\n%sprint b\n", "print pi (len \"ab\")\n%sprint 1\n"}
+	for _, n := range names {
+		for _, v := range vals {
+			for _, u := range uses {
+				use1 := fmt.Sprintf(u, "    ")
+				use2 := fmt.Sprintf(u, "        ")
+				out = append(out,
+					fmt.Sprintf("func f\n    %s := %s\n    print %s\n    %send\nf\n", n, v, n, use1),
+					fmt.Sprintf("if true\n    %s := %s\n    print %s\n    %send\n", n, v, n, use1),
+					fmt.Sprintf("for %s := range 2\n    print %s\n    %send\n", n, n, use1),
+					fmt.Sprintf("func g %s:string\n    print %s\n    %send\ng \"p\"\n", n, n, use1),
+					fmt.Sprintf("while true\n    if true\n        %s := %s\n        print %s\n        %s    end\n    break\nend\n", n, v, n, use2),
+					fmt.Sprintf("on key %s:string\n    print %s\n    %send\n", n, n, use1))
+			}
+		}
+	}
+	return out
 }
 
 func init() { register("C02", runC02) }
